@@ -90,6 +90,18 @@ def first_records(data, k):
     return bytes(one), n
 
 
+def tear_record(data, k):
+    """record k (file order) with the first 16 bytes of its binary XML overwritten, its header (size, id, time) left as it
+    is: a torn record as in a log copied from a live or crashed system. A reader cannot render that record; the records
+    stored after it are intact and must still come out. Chunk checksums recomputed."""
+    recs = records(data)
+    p = recs[k][0]
+    buf = bytearray(data)
+    buf[p + 24:p + 40] = b"\xff" * 16
+    fix_checksums(buf)
+    return bytes(buf)
+
+
 def ns_to_filetime(ns):
     return ns // 100 + EPOCH_DIFF_100NS
 
